@@ -256,3 +256,29 @@ def corrupt_file(rng, text):
         elif op == "soupline":
             lines.insert(rng.randrange(len(lines) + 1), soup(rng, nl=False))
     return "\n".join(lines)
+
+
+def valid_soup_file(rng):
+    """a valid components file made of random lines of every kind that share very few system ids, in random order:
+    every accessor of a component kind meets every other kind under the same id"""
+    n = rng.choice([1, 2, 3])
+    ids = rng.sample([0, 1, 2, 7], rng.randint(1, 2))
+    val = lambda: ", ".join(gen.fmt(gen.dy(rng, 64, 64 * 100)) for _ in range(n))
+    lines = []
+    srv = lambda: rng.choice(["ACS", "ACS", "ACS", "CAL", "REF", "VEN", "ILU"])
+    for _ in range(rng.randint(4, 12)):
+        i = rng.choice(ids)
+        k = rng.random()
+        if k < 0.4:
+            lines.append("%d, CONSUMO, %s, %s, %s" % (i, rng.choice([srv(), srv(), "NEPB", "COGEN"]),
+                                                     rng.choice(["BIOMASA", "BIOMASADENSIFICADA", "GASNATURAL", "ELECTRICIDAD", "EAMBIENTE", "TERMOSOLAR", "RED1", "GASOLEO"]), val()))
+        elif k < 0.6:
+            lines.append("%d, PRODUCCION, %s, %s" % (i, rng.choice(["EL_INSITU", "EL_COGEN", "TERMOSOLAR", "EAMBIENTE"]), val()))
+        elif k < 0.85:
+            lines.append("%d, SALIDA, %s, %s" % (i, srv(), val()))
+        else:
+            lines.append("%d, AUX, %s" % (i, val()))
+    if rng.random() < 0.85:
+        lines.append("DEMANDA, ACS, %s" % val())
+    rng.shuffle(lines)
+    return "\n".join(lines) + "\n"
